@@ -174,17 +174,17 @@ pub fn apply_real<const L: usize>(book: &mut OrderBook<L>, s: &Step) -> Ret {
         }
         Op::Place { id, ev } => {
             if *ev {
-                book.process_event(Event::New { order_id: *id })
+                book.process_event(Event::New { order_id: *id });
             } else {
-                book.place_order(*id)
+                book.place_order(*id);
             }
             Ret::Unit
         }
         Op::Cancel { id, ev } => {
             if *ev {
-                book.process_event(Event::Cancellation { order_id: *id })
+                book.process_event(Event::Cancellation { order_id: *id });
             } else {
-                book.cancel_order(*id)
+                book.cancel_order(*id);
             }
             Ret::Unit
         }
@@ -194,9 +194,9 @@ pub fn apply_real<const L: usize>(book: &mut OrderBook<L>, s: &Step) -> Ret {
                     order_id: *id,
                     new_price: *price,
                     new_vol: *vol,
-                })
+                });
             } else {
-                book.modify_order(*id, *price, *vol)
+                book.modify_order(*id, *price, *vol);
             }
             Ret::Unit
         }
